@@ -95,14 +95,43 @@ def reg_term(c):
     return '(RegC tab%d %s %s %s %s)' % (c['tab'], C.coq_bool(c['cmd']), C.coq_list(['(Hd %s %s)' % (N(h[0]), N(h[1])) for h in c['handlers']]),
                                        '(Some %s)' % N(c['dup']) if c['dup'] else 'None', C.coq_list(tr))
 
+TYPES = ['', 'CmdA', 'CmdB', 'EvtC', 'Named', 'Bad', 'wrapperspb.StringValue', 'wrapperspb.Int64Value', 'durationpb.Duration']
+S = ['']
+def sv(i):
+    return S[i] if 0 <= i < len(S) else i
+def rv(ty, c):
+    return '%s{%s}' % (TYPES[ty] if 0 <= ty < len(TYPES) else ty, sv(c))
+def rtrace(tr):
+    out = []
+    for e in tr:
+        if e[0] == 'handle': out.append(dict(Handle=e[1], value=rv(e[2], e[3]), original_message=['nil', 'the consumed message', 'another message'][e[4]], ctx_tag=e[5]))
+        elif e[0] == 'onhandle': out.append(dict(OnHandle=e[1], name=sv(e[2]), value=rv(e[3], e[4]), original_message=['nil', 'the consumed message', 'another message'][e[5]], ctx_tag=e[6]))
+        elif e[0] == 'pre': out.append(dict(handler=e[1], calls='Ack' if e[2] else 'Nack', returned=e[3]))
+        else: out.append(e)
+    return out
+def rsnap(s_):
+    return dict(object=s_['obj'], uuid=sv(s_['uuid']), payload=sv(s_['payload']), metadata={sv(k): sv(v) for k, v in s_['meta']}, ctx_tag=s_['tag'])
+def rbtrace(tr):
+    out = []
+    for e in tr:
+        if e[0] == 'topic': out.append(dict(GeneratePublishTopic=sv(e[1]), value=rv(e[2], e[3])))
+        elif e[0] == 'hook': out.append(dict(OnSend=sv(e[1]), value=rv(e[2], e[3]), message=rsnap(e[4])))
+        elif e[0] == 'modify': out.append(dict(modify=rsnap(e[1])))
+        elif e[0] == 'publish': out.append(dict(Publish=sv(e[1]), message=rsnap(e[2])))
+        else: out.append(e)
+    return out
+
 def describe(d, tabs):
-    return dict(kind=KIND[d['kind']], constructor=d['ctor'], marshaler=MARSH[tabs[d['tab']]['marshaler']], AckCommandHandlingErrors=d['ack_errors'], AckOnUnknownEvent=d['ack_unknown'],
+    return dict(readable=dict(metadata={sv(k): sv(v) for k, v in d['meta']}, payload=sv(d['payload']), sent_value=rv(*d['sent']) if d.get('sent') else None,
+                              handlers=['h%d:%s' % (h[0], TYPES[h[1]]) for h in d['handlers']], observed=rtrace(d['trace'])),
+                kind=KIND[d['kind']], constructor=d['ctor'], marshaler=MARSH[tabs[d['tab']]['marshaler']], AckCommandHandlingErrors=d['ack_errors'], AckOnUnknownEvent=d['ack_unknown'],
                 OnHandle=OH[d['onhandle']], message=dict(source=d['source'], metadata=d['meta'], payload=d['payload'], stale_original_in_ctx=d['stale'], sent_value=d.get('sent')),
                 handlers=[dict(id=h[0], type=h[1], pre=PRE[s[0]], does=HRES[s[1]]) for h, s in zip(d['handlers'], d['scripts'])],
                 observed_trace=d['trace'], router_settle_calls=d['settles'], final=ST[d['final']], anomalies=d.get('anomalies'), id=d['id'])
 
 def describe_bus(c, tabs):
-    return dict(bus=['CommandBus', 'EventBus'][c['buskind']], constructor=c['ctor'], marshaler=MARSH[tabs[c['tab']]['marshaler']], value=c['val'], pointer=c['ptr'],
+    return dict(readable=dict(value=rv(*c['val']), topic_fn=sv(c['topic']) if c['topic'] > 0 else c['topic'], observed=rbtrace(c['trace'])),
+                bus=['CommandBus', 'EventBus'][c['buskind']], constructor=c['ctor'], marshaler=MARSH[tabs[c['tab']]['marshaler']], value=c['val'], pointer=c['ptr'],
                 topic_fn=c['topic'], OnSend=c['hook'], modify=c['modify'], publisher=PB[c['pub']], concurrent_calls=c['conc'], observed_trace=c['trace'],
                 result=BRES[c['res']] if c['res'] < len(BRES) else 'other error', anomalies=c.get('anomalies'))
 
@@ -120,6 +149,7 @@ def run(ctx, nscen=None, nbus=None):
     for rnd in range(rounds):
         data, _ = C.run_harness(binary, ['c15', '-seed', str(seed * 1000 + rnd), '-n', str(nscen), '-nbus', str(nbus)], pid, 'c15_%d.json' % rnd)
         tabs = data['tabs']
+        S[:] = data.get('table') or ['']
         good = []
         for d in data['deliveries'] or []:
             res.evaluations += 1
